@@ -25,15 +25,16 @@
    after the other; two operations interleaved at call granularity (run2: a schedule says whose call is next, each
    operation has its own fault position) give EXACTLY the result of the sequential history whenever their calls
    lie in classes that commute pairwise; this is proved for the operations that update records in place (realloc,
-   set-node) on disjoint footprints (workload ids, node names).  Operations that append (create, the rollbacks of
-   remove/replace, every message) commute only up to the order of the appended elements: not proved; the harness
-   drives concurrent pairs of realloc/dissociate/remove/set-node through a call-by-call gate and compares with
-   the sequential model. *)
+   set-node) on disjoint footprints (workload ids, node names), and, up to the message channel (ONE shared list in
+   the model, one channel per operation in the code), for dissociate as well (C10_xops_interleave).  Operations that
+   append records (create, the re-adding rollbacks of remove/replace) commute only up to the order of the appended
+   elements: not proved; the harness drives concurrent pairs of realloc/dissociate/remove/set-node through a
+   call-by-call gate and compares with the sequential model. *)
 From Coq Require Import List Bool Arith ZArith.
 From Verif Require Import Base.Effects Calcium.World Calcium.Ops Calcium.Run Calcium.EffectsProofs
   Calcium.OpsProofs Calcium.OpsProofs2 Calcium.InvProofs Calcium.Sweeps Calcium.DeployProofs Calcium.DeployProofs2
   Calcium.CreateProofs Calcium.CreateProofs2 Calcium.NodeProofs Calcium.CapProofs Calcium.HistoryProofs
-  Calcium.Interleave Calcium.InterleaveOps Calcium.LambdaHistory Calcium.Examples.
+  Calcium.Interleave Calcium.InterleaveOps Calcium.InterleaveGen Calcium.InterleaveMsg Calcium.LambdaHistory Calcium.Examples.
 
 (* ---- the theorem over histories ---- *)
 Theorem C10_history : forall (h : list (op * option nat)) w, Inv w -> valid_hist_all w h -> Inv (run_hist w h).
@@ -78,6 +79,15 @@ Theorem C10_replace_op : forall opi idl w k l, Inv w -> fresh_from opi 0 w ->
   Inv (after (replace opi idl) w k).
 Proof. exact replace_keeps_Inv. Qed.
 Print Assumptions C10_replace_op.
+
+(* the side condition of the replace step is necessary, in EVERY world: the reported outcome "failed after the new
+   workload was deployed" breaks usage = sum as soon as the old workload holds any resource *)
+Theorem C10_replace_window_breaks_usage : forall opi index old w w' r,
+  Inv w -> find_wl w (w_id old) = Some old -> w_res old <> rzero ->
+  replace_post opi index old w w' r -> snd r <> None -> fst (fst r) <> None ->
+  ~ use_ok w'.
+Proof. exact replace_window_breaks_usage. Qed.
+Print Assumptions C10_replace_window_breaks_usage.
 
 (* AddNode in EVERY world (also when the store refuses the node and the plugin's clean-up is the failing call) *)
 Theorem C10_add_node_op : forall n p cap w k, Inv w -> Inv (after (add_node n p cap) w k).
@@ -131,6 +141,17 @@ Theorem C10_calls_commute : forall F1 F2 c1 c2 w, disjoint F1 F2 -> in_fp F1 c1 
   snd (exec (fst (exec w c2)) c1) = snd (exec w c1).
 Proof. exact fp_calls_commute. Qed.
 Print Assumptions C10_calls_commute.
+
+(* realloc, set-node and dissociate on disjoint footprints: every interleaving, any two fault positions, gives the
+   results and the world of the sequential history, equal in everything but the shared message channel *)
+Theorem C10_xops_interleave : forall F1 F2 o1 o2 w, disjoint F1 F2 -> x_in F1 o1 -> x_in F2 o2 ->
+  fp_inv F1 w -> fp_inv F2 w ->
+  forall sched k1 k2,
+    let '(w1, a, b) := run2 sched (x_script o1) k1 (x_script o2) k2 w in
+    let '(w2, a', b') := run2 nil (x_script o1) k1 (x_script o2) k2 w in
+    hide w1 = hide w2 /\ a = a' /\ b = b'.
+Proof. exact xops_interleave. Qed.
+Print Assumptions C10_xops_interleave.
 
 Theorem C10_realloc_pair : forall id1 id2 n1 n2 req1 req2 w, id1 <> id2 -> n1 <> n2 ->
   (forall x, In x (wls w) -> w_id x = id1 -> w_node x = n1) ->
